@@ -829,11 +829,26 @@ class HierarchicalMachine(Machine):
                 state_path = state_name.split(self.state_cls.separator)
                 if len(state_path) > 1:  # we only need to check substates when 'state_name' refers to a substate
                     with self(state_path[0]):
-                        triggers.extend(self.get_nested_triggers(state_path[1:]))
+                        triggers.extend(self._get_scoped_triggers(state_path[1:]))
                 while state_path:  # check all valid transitions for parent states
                     triggers.extend(super(HierarchicalMachine, self).get_triggers(
                         self.state_cls.separator.join(state_path)))
                     state_path.pop()
+        return triggers
+
+    def _get_scoped_triggers(self, src_path):
+        """Collects the triggers declared in the current (nested) scope and the scopes below it which are valid for
+        the state at src_path. Like the global lookup in get_triggers, every scope is asked for the state itself AND
+        its parents inside that scope since locally defined transitions of a parent are valid for its children.
+        """
+        triggers = []
+        state_path = list(src_path)
+        while state_path:
+            triggers.extend(super(HierarchicalMachine, self).get_triggers(self.state_cls.separator.join(state_path)))
+            state_path.pop()
+        if len(src_path) > 1 and src_path[0] in self.states:
+            with self(src_path[0]):
+                triggers.extend(self._get_scoped_triggers(src_path[1:]))
         return triggers
 
     def has_trigger(self, trigger, state=None):
